@@ -301,6 +301,42 @@ def c08_case(args):
     return res
 
 
+CONTAINERS = ["{R}", "[{R}, 2]", "[{R}]", "Optional[{R}]", "[[{R}, 2], 3]", "Optional[[{R}]]", "[Optional[{R}]]"]
+
+
+def generated_templates(tier, sd=0):
+    """Thorough tier: systematically generated templates - every sequence of 1..3 enum/struct declarations, then a struct
+    with two references in containers chosen round-robin; single file, and the same with the declarations moved to a module
+    imported before / after the using struct."""
+    import itertools
+    import random
+    rng = random.Random(sd)
+    out = []
+    k = 0
+    for n in (1, 2, 3):
+        for kinds in itertools.product(("enum", "struct"), repeat=n):
+            names = [f"N{i + 1}" for i in range(n)]
+            user = f"N{n + 1}"
+            decl_txt = "".join((f"enum {nm} {{ A = 0, }}\n" if kd == "enum" else f"struct {nm} {{ f @0: u8, }}\n")
+                               for nm, kd in zip(names, kinds))
+            c1 = CONTAINERS[k % len(CONTAINERS)]
+            c2 = CONTAINERS[(k * 3 + 1) % len(CONTAINERS)]
+            k += 1
+            use_txt = f"struct {user} {{ g @0: {c1.format(R='R1')}, h @1: {c2.format(R='R2')}, }}\n"
+            decls = dict(zip(names, kinds))
+            decls[user] = "struct"
+            refs_all = {"R1": (list(names), user, "g"), "R2": (list(names), user, "h")}
+            out.append(dict(name=f"gen_single_{''.join(x[0] for x in kinds)}", files={"main.fcp": V3 + decl_txt + use_txt},
+                            decls=dict(decls), refs=refs_all))
+            out.append(dict(name=f"gen_mod_before_{''.join(x[0] for x in kinds)}",
+                            files={"main.fcp": V3 + "mod lib.decls;\n" + use_txt, "lib/decls.fcp": V3 + decl_txt},
+                            decls=dict(decls), refs=refs_all))
+            out.append(dict(name=f"gen_mod_after_{''.join(x[0] for x in kinds)}",
+                            files={"main.fcp": V3 + use_txt + "mod lib.decls;\n", "lib/decls.fcp": V3 + decl_txt},
+                            decls=dict(decls), refs={"R1": ([], user, "g"), "R2": ([], user, "h")}))
+    return out
+
+
 def run_c08(tier: str) -> int:
     rep = Report("C08", tier)
     rep.bounds = {
@@ -315,7 +351,10 @@ def run_c08(tier: str) -> int:
     rep.assumptions = ["visible-before-use sets per reference are written in the template from the property text "
                        "(same file earlier, or a module imported earlier)",
                        "f-string rendering of an atom yields a unique marker that is searched in the error chain"]
-    for r in pmap(c08_case, [(t, tier) for t in C08_TEMPLATES]):
+    from ..common import seed
+    templates = list(C08_TEMPLATES) + (generated_templates(tier, seed()) if tier == "thorough" else [])
+    rep.bounds["templates"] = [t["name"] for t in templates]
+    for r in pmap(c08_case, [(t, tier) for t in templates]):
         rep.merge(r)
         if rep.red_enough():
             break
@@ -396,6 +435,23 @@ PLANS = [
     dict(name="depth3", blocks=[(["enum1", "struct2", "impl2", "struct3"], "a.b.c")]),
     dict(name="everything_but_last", blocks=[(["enum1", "struct2", "impl2", "struct3", "impl3", "svc", "dev"], "all")]),
 ]
+
+
+def generated_plans():
+    """Thorough tier: every self-contained contiguous block x module path depth 1..3, and pairs of disjoint blocks."""
+    blocks = [["enum1"], ["enum1", "struct2"], ["enum1", "struct2", "impl2"], ["enum1", "struct2", "impl2", "struct3"],
+              ["enum1", "struct2", "impl2", "struct3", "impl3"], ["impl2"], ["impl3"], ["svc"], ["dev"], ["svc", "dev"],
+              ["impl3", "svc"], ["impl2", "impl3"] if False else ["impl3", "svc", "dev"]]
+    paths = ["m", "a.b", "a.b.c"]
+    out = []
+    for bi, b in enumerate(blocks):
+        for pi, p in enumerate(paths):
+            out.append(dict(name=f"gen_{'+'.join(b)}_in_{p}", blocks=[(b, p)]))
+    pairs = [(["enum1"], ["svc"]), (["enum1", "struct2"], ["impl3", "svc"]), (["enum1"], ["dev"]), (["impl2"], ["svc", "dev"])]
+    for (b1, b2) in pairs:
+        for p1, p2 in (("x", "y"), ("p.q", "r"), ("r", "p.q"), ("d.t", "e.t")):
+            out.append(dict(name=f"gen_{'+'.join(b1)}_in_{p1}__{'+'.join(b2)}_in_{p2}", blocks=[(b1, p1), (b2, p2)]))
+    return out
 
 
 def build_split(plan):
@@ -674,7 +730,8 @@ def _c20_dispatch(args):
 
 def run_c20(tier: str) -> int:
     rep = Report("C20", tier)
-    cases = [("plan", p, tier) for p in PLANS]
+    plans = list(PLANS) + (generated_plans() if tier == "thorough" else [])
+    cases = [("plan", p, tier) for p in plans]
     errs = ERROR_CASES + syntax_error_cases(tier)
     cases += [("error", e, tier) for e in errs]
     lens = [(0,) * 5, (1,) * 5, (2, 0, 1, 2, 0), (0, 2, 2, 0, 1), (2, 2, 2, 2, 2)]
@@ -682,7 +739,7 @@ def run_c20(tier: str) -> int:
     rep.bounds = {
         "template": "one schema with every declaration kind (enum, 3 structs, 2 bindings incl. 'as' rename and a signal "
                     "block, service with method, device) whose type names and references are atoms",
-        "plans": [p["name"] for p in PLANS],
+        "plans": [p["name"] for p in plans],
         "errors": [e["name"] for e in ERROR_CASES] + [f"{len(errs) - len(ERROR_CASES)} syntax-error positions"],
         "merge": "list lengths 0..2 per category, opaque elements",
         "outside": "the real file system; module names are concrete identifiers",
